@@ -263,7 +263,7 @@ theorem detachExec_ts {ex exo} {ts : TState} {t t' : Task} {q0 : ScqId} {w : WId
   have hwkp : wk.parked = false := by
     cases hp : wk.parked with
     | false => rfl
-    | true => have := (hc.w1 q0 w wk hwk hp).1; rw [hwkt] at this; cases this
+    | true => have := hc.w1 q0 w wk hwk hp; rw [hwkt] at this; cases this
   have htq : t.queued = false := by
     cases hq : t.queued with
     | false => rfl
